@@ -65,13 +65,12 @@ func (m *memoryStore) GetTokenResponse(ctx context.Context, sessionID string) (*
 	m.mu.Lock()
 	defer m.mu.Unlock()
 
-	s := m.sessions[sessionID]
+	s := m.liveSession(sessionID, m.clock.Now())
 	if s == nil {
 		return nil, nil
 	}
 
 	log.Debug("token response", "token_response", s.tokenResponse)
-	s.accessed = m.clock.Now()
 	return s.tokenResponse, nil
 }
 
@@ -92,13 +91,12 @@ func (m *memoryStore) GetAuthorizationState(ctx context.Context, sessionID strin
 	m.mu.Lock()
 	defer m.mu.Unlock()
 
-	s := m.sessions[sessionID]
+	s := m.liveSession(sessionID, m.clock.Now())
 	if s == nil {
 		return nil, nil
 	}
 
 	log.Debug("authorization state", "state", s.authorizationState)
-	s.accessed = m.clock.Now()
 	return s.authorizationState, nil
 }
 
@@ -109,8 +107,7 @@ func (m *memoryStore) ClearAuthorizationState(ctx context.Context, sessionID str
 	m.mu.Lock()
 	defer m.mu.Unlock()
 
-	if s := m.sessions[sessionID]; s != nil {
-		s.accessed = m.clock.Now()
+	if s := m.liveSession(sessionID, m.clock.Now()); s != nil {
 		s.authorizationState = nil
 	}
 
@@ -163,9 +160,8 @@ func (m *memoryStore) set(ctx context.Context, sessionID string, setter func(s *
 	m.mu.Lock()
 	defer m.mu.Unlock()
 
-	s := m.sessions[sessionID]
+	s := m.liveSession(sessionID, m.clock.Now())
 	if s != nil {
-		s.accessed = m.clock.Now()
 		setter(s)
 	} else {
 		s = newSession(m.clock.Now())
@@ -177,6 +173,24 @@ func (m *memoryStore) set(ctx context.Context, sessionID string, setter func(s *
 }
 
 // session holds the data of a session stored in the in-memory cache
+// liveSession returns the session with the given id and marks it as accessed at the given
+// time. A session that is past its absolute or idle timeout is removed and nil is returned, so
+// that the timeouts are enforced on every access and not only when RemoveAllExpired is run.
+// It must be called with the mutex held.
+func (m *memoryStore) liveSession(sessionID string, now time.Time) *session {
+	s := m.sessions[sessionID]
+	if s == nil {
+		return nil
+	}
+	if (m.absoluteSessionTimeout > 0 && s.added.Add(m.absoluteSessionTimeout).Before(now)) ||
+		(m.idleSessionTimeout > 0 && s.accessed.Add(m.idleSessionTimeout).Before(now)) {
+		delete(m.sessions, sessionID)
+		return nil
+	}
+	s.accessed = now
+	return s
+}
+
 type session struct {
 	tokenResponse      *TokenResponse
 	authorizationState *AuthorizationState
